@@ -37,11 +37,12 @@ def getBuckets (univ lowWidth : Nat) : Nat :=
 
 def split (s : Sparse) (index : Nat) : Nat × Nat := (index >>> s.width, index % 2 ^ s.width)
 
-/-- `combine` : (rank, position) -/
+/-- `combine` : (rank, position).
+At width ≥ 64 the code skips the subtraction `pos.high - pos.low` altogether (the high part is 0), so it cannot panic there. -/
 def combine (m : Mode) (s : Sparse) (p : Pos) : Outcome (Nat × Nat) := do
-  let d ← subM m p.high p.low
+  let high ← (if s.width < 64 then do let d ← subM m p.high p.low; pure ((d <<< s.width) % U64) else pure 0)
   let l ← s.low.get p.low
-  let v ← addM m ((d <<< s.width) % U64) l.toNat
+  let v ← addM m high l.toNat
   return (p.low, v)
 
 /-! `split` / `combine` AS FIRST WRITTEN (before the repair of F13): `index >> self.low.width()` and
